@@ -173,8 +173,11 @@ func runC14(r *ev.Run) {
 		chain.GenesisOptions{EpochInterval: 2, MaxValidators: 2, NoRewards: true, NodeExpiration: 12, Escrow: []uint64{1500, 350, 3000}}, // entity 1 just above its claims (100 + 200)
 		chain.GenesisOptions{EpochInterval: 2, MaxValidators: 3, NoRewards: true, NodeExpiration: 12, Escrow: []uint64{1500, 299, 3000}}, // entity 1 below its claims at genesis
 	)
+	// tiny stakes around the voting-power unit (16 base units per vote), thresholds zero
+	tiny := chain.GenesisOptions{EpochInterval: 2, MaxValidators: 3, NoRewards: true, NodeExpiration: 12, ZeroThresholds: true, Escrow: []uint64{7, 40, 1000}}
+	variants = append(variants, tiny)
 	if !r.Thorough() {
-		variants = []chain.GenesisOptions{variants[2], variants[3], variants[5], variants[6], variants[7]}
+		variants = []chain.GenesisOptions{variants[2], variants[3], variants[5], variants[6], variants[7], tiny}
 	}
 	depth := 2
 	if r.Thorough() {
